@@ -81,6 +81,55 @@ def keyEq : Option (List Val) → Option (List Val) → Bool
   | some a, some b => Val.beqList a b
   | _, _ => false
 
+/-- review additions: an encoder given as a table over pool positions (`null` = skipped) -/
+def getEncTable (j : Json) : Except String (Nat → Option Int) := do
+  let tbl ← (← fldArr j "enc").mapM fun v => match v with
+    | .null => pure (none : Option Int)
+    | v => do pure (some (← v.getInt?))
+  return fun i => (tbl[i]?).join
+
+def raiseIdx : Json := Json.mkObj [("raise", Json.str "index")]
+
+def fillJ {β} (f : β → Json) : Option (List β) → Json
+  | none => raiseIdx
+  | some xs => arrJ (xs.map f)
+
+def getFeature (j : Json) : Except String Feature := do
+  return { term := ← getTerm (← fld j "term"), value := ← fldRat j "value" }
+
+def featureJ (f : Feature) : Json := Json.mkObj [("term", termJ f.term), ("value", ratJ f.value)]
+
+def optOf {α} (get : Json → Except String α) (j : Json) (k : String) : Except String (Option α) :=
+  match fldOpt j k with
+  | none => pure none
+  | some v => do pure (some (← get v))
+
+/-- raw value trees: as `getVal`, with `{"i": int}` and `{"f": rat, "neg0": bool}` for numbers -/
+partial def getPyVal (j : Json) : Except String PyVal := do
+  match j with
+  | .null => return .none
+  | .bool b => return .bool b
+  | _ =>
+    if let some s := fldOpt j "s" then return .str (← s.getStr?)
+    if let some n := fldOpt j "i" then return .int (← n.getInt?)
+    if let some q := fldOpt j "f" then
+      let nz := match fldOpt j "neg0" with
+        | some (.bool true) => true
+        | _ => false
+      return .float (← getRat q) nz
+    if let some l := fldOpt j "l" then return .list (← (← getArr l).mapM getPyVal)
+    if let some l := fldOpt j "t" then return .tuple (← (← getArr l).mapM getPyVal)
+    if let some c := fldOpt j "o" then
+      let names ← (← fldArr j "n").mapM (·.getStr?)
+      let vals ← (← fldArr j "v").mapM getPyVal
+      if names.length ≠ vals.length then .error "object: names/values length"
+      return .obj (← c.getStr?) names vals
+    .error s!"bad raw value {j.compress}"
+
+def pyCls : PyVal → Option String
+  | .obj c _ _ => some c
+  | _ => none
+
 def handle (op : String) (a : Json) : Except String Json := do
   match op with
   | "encoder" =>
@@ -114,6 +163,48 @@ def handle (op : String) (a : Json) : Except String Json := do
     let y ← getVal (← fld a "b")
     return Json.mkObj [("eq", boolJ (Val.beq x y)), ("same_key", boolJ (keyEq (hashKey x) (hashKey y))),
                        ("has_key", boolJ ((hashKey x).isSome && (hashKey y).isSome))]
+  | "classification_g" =>
+    let enc ← getEncTable a
+    return optJ intJ (classificationG enc (← getNatList (← fld a "tags")))
+  | "multilabel_g" =>
+    let enc ← getEncTable a
+    return fillJ natJ (multilabelG enc (← fldNat a "n") (← getNatList (← fld a "tags")))
+  | "prediction_g" =>
+    let enc ← getEncTable a
+    let ps ← (← fldArr a "preds").mapM fun p => do
+      return ((← fldNat p "i"), (← fldRat p "score"), (← fldRat p "score32"))
+    let tbl := ps.map fun p => (p.2.1, p.2.2)
+    return fillJ ratJ (predictionG (castOf tbl) (fun p : Nat × Rat × Rat => enc p.1) (·.2.1) (← fldNat a "n") ps)
+  | "decode_i" =>
+    let vocab ← getTags a "vocab"
+    let idx ← (← fldArr a "idx").mapM (·.getInt?)
+    return arrJ (idx.map fun i => match decodeI vocab i with
+      | none => raiseIdx
+      | some t => valJ (tagJ t))
+  | "norm_idx" =>
+    let n ← fldNat a "n"
+    let idx ← (← fldArr a "idx").mapM (·.getInt?)
+    return arrJ (idx.map fun i => optJ natJ (normIdx n i))
+  | "find_tag" =>
+    let r := findTag (← getTags a "tags") (← optOf (·.getStr?) a "label") (← optOf getTerm a "term")
+      (← optOf getTag a "default")
+    return optRaiseJ (optJ tagJ) r
+  | "find_feature" =>
+    let fs ← (← fldArr a "features").mapM getFeature
+    let r := findFeature fs (← optOf (·.getStr?) a "label") (← optOf getTerm a "term") (← optOf getFeature a "default")
+    return optRaiseJ (optJ featureJ) r
+  | "tag_init" =>
+    let r := tagInit (← optOf (·.getStr?) a "key") (← optOf getTerm a "term") (← fldStr a "value")
+    return optRaiseJ (fun t => Json.mkObj [("tag", tagJ t), ("key", Json.str (keyFromTerm t.term))]) r
+  | "feature_init" =>
+    let r := featureInit (← optOf (·.getStr?) a "name") (← optOf getTerm a "term") (← fldRat a "value")
+    return optRaiseJ (fun f => Json.mkObj [("feature", featureJ f), ("name", Json.str (keyFromTerm f.term))]) r
+  | "py_eq_hash" =>
+    let x ← getPyVal (← fld a "a")
+    let y ← getPyVal (← fld a "b")
+    let hk (v : PyVal) : Bool := ((pyCls v).bind hashFields).isSome
+    return Json.mkObj [("eq", boolJ (PyVal.beq x y)), ("canon_eq", boolJ (Val.beq x.canon y.canon)),
+                       ("has_key", boolJ (hk x && hk y))]
   | _ => .error s!"C19: unknown op {op}"
 
 end SE.Ops.C19
